@@ -75,7 +75,12 @@ pub struct Live {
 
 pub struct SimStream<'a> {
     data: &'a [u8],
+    /// unrelated bytes before / after the replay (the stream's address space is prefix ++ data ++ suffix)
+    prefix: Vec<u8>,
+    suffix: Vec<u8>,
+    /// bytes of `data` the recorder has produced so far (live) or data.len()
     avail: usize,
+    /// position in the stream's address space (starts at prefix.len())
     pos: usize,
     spec: StreamSpec,
     rng: Rng,
@@ -110,16 +115,23 @@ fn hard_kind(k: u8) -> io::ErrorKind {
 
 impl<'a> SimStream<'a> {
     pub fn new(data: &'a [u8], spec: &StreamSpec, edges: &'a [usize]) -> Self {
+        let mut g = Rng::new(spec.pseed ^ 0xE4BED);
+        let mut prefix = vec![0u8; spec.prefix as usize];
+        g.fill(&mut prefix);
+        let mut suffix = vec![0u8; spec.suffix as usize];
+        g.fill(&mut suffix);
         SimStream {
             data,
+            pos: prefix.len(),
+            prefix,
+            suffix,
             avail: data.len(),
-            pos: 0,
             spec: spec.clone(),
             rng: Rng::new(spec.pseed ^ 0x5157_5245_414D),
             edges,
             calls: 0,
             consecutive_eof: 0,
-            call_budget: 4 * data.len() as u64 + 4096 + 2 * spec.eintr_calls.len() as u64,
+            call_budget: 4 * (data.len() as u64 + spec.suffix as u64) + 4096 + 2 * spec.eintr_calls.len() as u64,
             total_calls: 0,
             digest: 0x51D,
             oplog: vec![],
@@ -144,8 +156,23 @@ impl<'a> SimStream<'a> {
         s
     }
 
+    /// position relative to the first byte of the replay
     pub fn position(&self) -> usize {
-        self.pos
+        self.pos.saturating_sub(self.prefix.len())
+    }
+
+    fn base(&self) -> usize {
+        self.prefix.len()
+    }
+
+    /// end of what can currently be read, in the stream's address space
+    fn virt_avail(&self) -> usize {
+        let b = self.base() + self.avail;
+        if self.avail >= self.data.len() {
+            b + self.suffix.len()
+        } else {
+            b
+        }
     }
 
     pub fn calls(&self) -> u64 {
@@ -158,6 +185,7 @@ impl<'a> SimStream<'a> {
         self.digest = mix(self.digest, res as u64);
         self.digest = mix(self.digest, self.pos as u64);
         if self.oplog.len() < 256 {
+            let _ = self.base();
             let name = match op {
                 0 => "read",
                 1 => "seek",
@@ -211,10 +239,11 @@ impl<'a> SimStream<'a> {
         // interleaving measure: where the parser was waiting (event kind, byte offset inside
         // the event) when the recorder ran, and how many writes the recorder got in before
         // the parser was scheduled again
-        let (code, within) = match self.edges.binary_search(&self.pos) {
+        let lp = self.position();
+        let (code, within) = match self.edges.binary_search(&lp) {
             Ok(i) => (self.data.get(self.edges[i]).copied().unwrap_or(0), 0usize),
-            Err(0) => (0, self.pos),
-            Err(i) => (self.data.get(self.edges[i - 1]).copied().unwrap_or(0), self.pos - self.edges[i - 1]),
+            Err(0) => (0, lp),
+            Err(i) => (self.data.get(self.edges[i - 1]).copied().unwrap_or(0), lp - self.edges[i - 1]),
         };
         let key = mix(mix(mix(0x11FE, code as u64), within as u64), ahead as u64);
         self.interleavings.insert(key);
@@ -226,7 +255,8 @@ impl<'a> SimStream<'a> {
         if self.edges.is_empty() {
             return;
         }
-        match self.edges.binary_search(&self.pos) {
+        let lp = self.position();
+        match self.edges.binary_search(&lp) {
             Ok(_) => {
                 self.stats.split_on_edge += 1;
                 self.interleavings.insert(mix(0xED6E, 0));
@@ -236,7 +266,7 @@ impl<'a> SimStream<'a> {
                     let start = self.edges[i - 1];
                     let code = self.data.get(start).copied().unwrap_or(0);
                     self.stats.split_inside_event += 1;
-                    self.interleavings.insert(mix(mix(0x1D5E, code as u64), (self.pos - start) as u64));
+                    self.interleavings.insert(mix(mix(0x1D5E, code as u64), (lp - start) as u64));
                 }
             }
         }
@@ -257,8 +287,9 @@ impl<'a> Read for SimStream<'a> {
                 return Err(io::Error::new(hard_kind(self.spec.hard_error_kind), "sim: injected hard read error"));
             }
         }
+        let base = self.base();
         if let Some(o) = self.spec.hard_error_offset {
-            if self.pos as u64 >= o && !buf.is_empty() {
+            if self.pos >= base && (self.pos - base) as u64 >= o && !buf.is_empty() {
                 self.stats.hard_errors += 1;
                 self.hard_error_returned = true;
                 self.log(0, buf.len(), -2);
@@ -275,10 +306,10 @@ impl<'a> Read for SimStream<'a> {
             self.log(0, 0, 0);
             return Ok(0);
         }
-        if self.pos >= self.avail && self.live.is_some() {
+        if self.pos >= base + self.avail && self.live.is_some() {
             self.recorder_step();
         }
-        let left = self.avail.saturating_sub(self.pos);
+        let left = self.virt_avail().saturating_sub(self.pos);
         if left == 0 {
             self.consecutive_eof += 1;
             self.stats.eof_polls += 1;
@@ -286,16 +317,26 @@ impl<'a> Read for SimStream<'a> {
             if self.consecutive_eof > EOF_POLL_LIMIT {
                 std::panic::resume_unwind(Box::new(NoProgress(format!(
                     "{} consecutive reads at end of stream (pos {})",
-                    self.consecutive_eof, self.pos
+                    self.consecutive_eof,
+                    self.position()
                 ))));
             }
             return Ok(0);
         }
         self.consecutive_eof = 0;
-        let mut max = buf.len().min(left);
-        if let Some(o) = self.spec.hard_error_offset {
+        // which segment are we in? never cross a segment boundary in one call
+        let (seg, seg_off, seg_len): (u8, usize, usize) = if self.pos < base {
+            (0, self.pos, base)
+        } else if self.pos < base + self.data.len() {
+            (1, self.pos - base, self.avail)
+        } else {
+            (2, self.pos - base - self.data.len(), self.suffix.len())
+        };
+        let mut max = buf.len().min(left).min(seg_len - seg_off);
+        let lp = self.pos.saturating_sub(base); // logical position inside the replay
+        if let (1, Some(o)) = (seg, self.spec.hard_error_offset) {
             // deliver up to the fault position, never across it
-            let room = (o as usize).saturating_sub(self.pos);
+            let room = (o as usize).saturating_sub(lp);
             if room > 0 {
                 max = max.min(room);
             }
@@ -306,8 +347,8 @@ impl<'a> Read for SimStream<'a> {
             Frag::Fixed(c) => (c.max(1) as usize).min(max),
             Frag::Two(k) => {
                 let k = k as usize;
-                if self.pos < k {
-                    (k - self.pos).min(max)
+                if lp < k {
+                    (k - lp).min(max)
                 } else {
                     max
                 }
@@ -318,15 +359,15 @@ impl<'a> Read for SimStream<'a> {
             }
             Frag::Edge(d) => {
                 // stop at the next event edge shifted by d
-                let i = match self.edges.binary_search(&(self.pos + 1)) {
+                let i = match self.edges.binary_search(&(lp + 1)) {
                     Ok(i) => i,
                     Err(i) => i,
                 };
                 let mut n = max;
                 for e in &self.edges[i.min(self.edges.len())..] {
                     let t = (*e as i64 + d as i64).max(0) as usize;
-                    if t > self.pos {
-                        n = (t - self.pos).min(max);
+                    if t > lp {
+                        n = (t - lp).min(max);
                         break;
                     }
                 }
@@ -334,14 +375,19 @@ impl<'a> Read for SimStream<'a> {
             }
         };
         let n = n.min(max).max(1);
-        buf[..n].copy_from_slice(&self.data[self.pos..self.pos + n]);
+        let src: &[u8] = match seg {
+            0 => &self.prefix[seg_off..seg_off + n],
+            1 => &self.data[seg_off..seg_off + n],
+            _ => &self.suffix[seg_off..seg_off + n],
+        };
+        buf[..n].copy_from_slice(src);
         self.pos += n;
-        if self.pos > self.high_water {
-            self.high_water = self.pos;
+        if self.position() > self.high_water {
+            self.high_water = self.position();
         }
         if n < buf.len() {
             self.stats.short_reads += 1;
-            if self.pos < self.data.len() {
+            if seg == 1 && self.position() < self.data.len() {
                 self.note_split();
             }
         }
@@ -363,7 +409,7 @@ impl<'a> Seek for SimStream<'a> {
         let new = match pos {
             SeekFrom::Start(o) => o as i128,
             SeekFrom::Current(d) => self.pos as i128 + d as i128,
-            SeekFrom::End(d) => self.data.len() as i128 + d as i128,
+            SeekFrom::End(d) => (self.prefix.len() + self.data.len() + self.suffix.len()) as i128 + d as i128,
         };
         if new < 0 {
             self.log(1, 0, -3);
